@@ -37,4 +37,5 @@ def main(tier, replay=None):
     res.assumptions = ["reference transaction machine and rcpthosts/badmailfrom policy written from RFC 5321 and qmail-smtpd(8)",
                        "network and queue are harness stand-ins (smtpd_env.h); the queue side is C07's subject"]
     res.require_nonzero("evaluations", "states", "transitions", "recipients_accepted", "recipients_refused", "messages_submitted", "morercpthosts_recipients_checked")
+    lib_conformance(res, rd, src, ['bytes', 'ctl', 'map', 'cdb', 'num'], tier, asan=True)
     return res.finish()
